@@ -386,3 +386,37 @@ func (e *Engine) loopInfo(fn *ssa.Function) map[*ssa.BasicBlock]*loopInfoT {
 }
 
 func headerPos(b *ssa.BasicBlock) int { return b.Index }
+
+// implementations: for an interface type defined in the Helios module, the (pointer or value) types of the
+// module that implement it. Empty for interfaces from dependencies (open world).
+func (e *Engine) implementations(it types.Type) []types.Type {
+	n, ok := types.Unalias(it).(*types.Named)
+	if !ok || !isHeliosPkg(n.Obj().Pkg()) {
+		return nil
+	}
+	iface, ok := n.Underlying().(*types.Interface)
+	if !ok {
+		return nil
+	}
+	var out []types.Type
+	var dirs []string
+	for d := range e.typesByDir {
+		dirs = append(dirs, d)
+	}
+	sort.Strings(dirs)
+	for _, d := range dirs {
+		tp := e.typesByDir[d]
+		for _, name := range tp.Scope().Names() {
+			tn, ok := tp.Scope().Lookup(name).(*types.TypeName)
+			if !ok || types.IsInterface(tn.Type()) {
+				continue
+			}
+			if types.Implements(types.NewPointer(tn.Type()), iface) {
+				out = append(out, types.NewPointer(tn.Type()))
+			} else if types.Implements(tn.Type(), iface) {
+				out = append(out, tn.Type())
+			}
+		}
+	}
+	return out
+}
